@@ -1,12 +1,19 @@
 // Group `mainwire`, units M2 (`repository_root_path`) and FS1..FS3 (`FileSystemImpl`): the file system
 // as uninterpreted specification functions over `PathBuf` VALUES, assumed specifications of the
-// non-generic `Path` methods and E13/E3 shims for the generic ones and for the iterator chains.
-// Included *inside* the group's `verus! { .. }` block, after prelude/orch_model.rs (which declares
-// `PathBuf`); `Path` is declared by prelude/mainw_ax.rs.
+// non-generic `Path` methods, E13/E3 shims for the generic ones and for the iterator chains, and the
+// specification of M2 with its lemmas. A module of its own, OUTSIDE the group's `verus! { .. }` block,
+// so that the group can `broadcast use` the lemmas at module level (a module cannot broadcast lemmas
+// about functions it defines itself). `PathBuf` is declared by prelude/orch_model.rs, `Path` by
+// prelude/mainw_ax.rs; needs prelude/mainw_anyhow.rs and prelude/mainw_ignore.rs.
 //
 // Nothing here says what a path IS: `ancestors`, `join`, `strip_prefix`, `is_dir`, the contents of a
 // file and the directory walk are parameters of every proof (the state of the disk does not change
 // during the run: T-ext).
+mod mainw_paths {
+    use vstd::prelude::*;
+    use std::path::{Path, PathBuf};
+    use crate::{anyhow, ignore};
+    verus! {
 
 // ---- borrowed and owned paths -------------------------------------------------------------------------
 /// `Path::to_path_buf`: the owned copy of a borrowed path. Specifications speak about owned values.
@@ -83,13 +90,9 @@ pub fn verif_path_strip_prefix<'a>(p: &'a Path, base: &PathBuf) -> (r: Result<&'
         r is Err ==> path_strip_prefix_spec(path_owned(p), *base) is None,
 { p.strip_prefix(base) }
 
-// T-std (std_ondemand.rs): `Result::unwrap_or`, `Option::ok_or_else`
+// T-std (same statement as in prelude/std_ondemand.rs): `Result::unwrap_or`
 pub assume_specification<T, E>[ Result::<T, E>::unwrap_or ](a: Result<T, E>, d: T) -> (r: T)
     ensures (a matches Ok(x) ==> r == x), (a is Err ==> r == d);
-
-pub assume_specification<T, E, F: FnOnce() -> E>[ Option::<T>::ok_or_else ](a: Option<T>, f: F) -> (r: Result<T, E>)
-    requires a is None ==> call_requires(f, ()),
-    ensures (a matches Some(x) ==> r == Ok::<T, E>(x)), (a is None ==> r is Err);
 
 #[verifier::external_type_specification]
 #[verifier::external_body]
@@ -104,21 +107,62 @@ pub fn verif_fs_read_to_string(p: PathBuf) -> (r: Result<String, std::io::Error>
 { std::fs::read_to_string(p) }
 
 // ---- M2: `current_path.ancestors().find(F)` ------------------------------------------------------------
-/// E3 shim (iterator adapters are outside Verus; body = the identical std chain). Trusted, from the std
-/// doc of `Iterator::find` ("Searches for an element of an iterator that satisfies a predicate ...
-/// returns the first element for which the closure returns true; short-circuiting"): the result is the
-/// FIRST ancestor on which the closure answers true, `None` if it answers false on all of them.
-/// `pred` is the closure's own verified postcondition read as a function of the (owned) path.
+/// Stand-in for `std::path::Ancestors<'a>` (E14: iterator adapters are outside Verus): ghost sequence of
+/// the (owned) paths it will yield, in order. Only `find` is used by the unchanged tree; `skip`, `filter`
+/// and `last` are specified (std docs of the `Iterator` methods of the same names) so that code calling
+/// them instead is decided rather than leaving the verifier's subset.
 #[verifier::external_body]
-pub fn verif_ancestors_find<'a, F: FnMut(&&'a Path) -> bool>(p: &'a Path, f: F, Ghost(pred): Ghost<spec_fn(PathBuf) -> bool>) -> (r: Option<&'a Path>)
+pub struct AncIter<'a> { it: Box<dyn Iterator<Item = &'a Path> + 'a> }
+
+/// E13 shim: `p.ancestors()`. Body = the identical std call.
+#[verifier::external_body]
+pub fn verif_ancestors<'a>(p: &'a Path) -> (r: AncIter<'a>)
+    ensures r.items() == ancestors_spec(path_owned(p)),
+{ AncIter { it: Box::new(p.ancestors()) } }
+
+impl<'a> AncIter<'a> {
+    pub uninterp spec fn items(&self) -> Seq<PathBuf>;
+
+    /// `Iterator::skip(n)`: "Creates an iterator that skips the first n elements"
+    #[verifier::external_body]
+    pub fn skip(self, n: usize) -> (r: AncIter<'a>)
+        ensures r.items() == (if n <= self.items().len() { self.items().skip(n as int) } else { Seq::empty() }),
+    { AncIter { it: Box::new(self.it.skip(n)) } }
+
+    /// `Iterator::last()`: "Consumes the iterator, returning the last element"
+    #[verifier::external_body]
+    pub fn last(self) -> (r: Option<&'a Path>)
+        ensures
+            self.items().len() == 0 ==> r is None,
+            self.items().len() > 0 ==> (r matches Some(x) && path_owned(x) == self.items().last()),
+    { self.it.last() }
+}
+
+/// E3 shim for `<ancestors>.find(F)`. Trusted, from the std doc of `Iterator::find` ("Searches for an
+/// element of an iterator that satisfies a predicate ... returns the first element for which the
+/// closure returns true"; short-circuiting): the result is the FIRST item on which the closure answers
+/// true, `None` if it answers false on all of them. `pred` is the closure's own verified postcondition
+/// read as a function of the (owned) path.
+#[verifier::external_body]
+pub fn verif_iter_find<'a, F: FnMut(&&'a Path) -> bool>(it: AncIter<'a>, f: F, Ghost(pred): Ghost<spec_fn(PathBuf) -> bool>) -> (r: Option<&'a Path>)
     requires
         forall|x: &&'a Path| #[trigger] call_requires(f, (x,)),
         forall|x: &&'a Path, b: bool| #[trigger] call_ensures(f, (x,), b) ==> b == pred(path_owned(*x)),
     ensures
-        r matches Some(x) ==> exists|i: int| 0 <= i < ancestors_spec(path_owned(p)).len() && #[trigger] ancestors_spec(path_owned(p))[i] == path_owned(x)
-            && pred(path_owned(x)) && (forall|j: int| 0 <= j < i ==> !pred(#[trigger] ancestors_spec(path_owned(p))[j])),
-        r is None ==> forall|i: int| 0 <= i < ancestors_spec(path_owned(p)).len() ==> !pred(#[trigger] ancestors_spec(path_owned(p))[i]),
-{ p.ancestors().find(f) }
+        r matches Some(x) ==> exists|i: int| 0 <= i < it.items().len() && #[trigger] it.items()[i] == path_owned(x)
+            && pred(path_owned(x)) && (forall|j: int| 0 <= j < i ==> !pred(#[trigger] it.items()[j])),
+        r is None ==> forall|i: int| 0 <= i < it.items().len() ==> !pred(#[trigger] it.items()[i]),
+{ let mut it = it; it.it.find(f) }
+
+/// E3 shim for `<ancestors>.filter(F)` (std doc: "yields only the elements for which the closure returns true")
+#[verifier::external_body]
+pub fn verif_iter_filter<'a, F: FnMut(&&'a Path) -> bool + 'a>(it: AncIter<'a>, f: F, Ghost(pred): Ghost<spec_fn(PathBuf) -> bool>) -> (r: AncIter<'a>)
+    requires
+        forall|x: &&'a Path| #[trigger] call_requires(f, (x,)),
+        forall|x: &&'a Path, b: bool| #[trigger] call_ensures(f, (x,), b) ==> b == pred(path_owned(*x)),
+    ensures
+        r.items() == it.items().filter(pred),
+{ AncIter { it: Box::new(it.it.filter(f)) } }
 
 // ---- FS3: `ignore::Walk::new(root).filter_map(F)` ------------------------------------------------------
 /// E14: the iterator returned by `FileSystem::walk` (`impl Iterator<Item = anyhow::Result<PathBuf>>`,
@@ -159,3 +203,67 @@ pub fn verif_walk_filter_map<F: FnMut(Result<ignore::DirEntry, ignore::Error>) -
             && (forall|i: int| 0 <= i < outs.len() ==> call_ensures(f, (walk.entries()[i],), #[trigger] outs[i]))
             && r.pending() == somes(outs),
 { unimplemented!() }
+
+// ---- M2: specification, from the statements of C15 / C20 ------------------------------------------------
+/// a repository root: a directory that has a `.git` or a `.hg` DIRECTORY in it
+pub open spec fn is_repo_root(p: PathBuf) -> bool {
+    is_dir_spec(path_join_spec(p, ".git"@)) || is_dir_spec(path_join_spec(p, ".hg"@))
+}
+
+/// `root` is the NEAREST ancestor of `start` (the path itself included) that is a repository root
+pub open spec fn nearest_repo_root(start: PathBuf, root: PathBuf) -> bool {
+    exists|i: int| 0 <= i < ancestors_spec(start).len() && #[trigger] ancestors_spec(start)[i] == root
+        && is_repo_root(root) && (forall|j: int| 0 <= j < i ==> !is_repo_root(#[trigger] ancestors_spec(start)[j]))
+}
+
+/// no ancestor of `start` (the path itself included) is a repository root
+pub open spec fn no_repo_root(start: PathBuf) -> bool {
+    forall|i: int| 0 <= i < ancestors_spec(start).len() ==> !is_repo_root(#[trigger] ancestors_spec(start)[i])
+}
+
+/// `repository_root_path` as a function (`None` = `Err`)
+pub open spec fn repo_root_spec(start: PathBuf) -> Option<PathBuf> {
+    if no_repo_root(start) { None } else { Some(choose|root: PathBuf| nearest_repo_root(start, root)) }
+}
+
+/// the nearest root is unique, so `repo_root_spec` is THE root
+pub proof fn lemma_nearest_root_unique(start: PathBuf, r1: PathBuf, r2: PathBuf)
+    requires nearest_repo_root(start, r1), nearest_repo_root(start, r2),
+    ensures r1 == r2,
+{
+    let anc = ancestors_spec(start);
+    let i1 = choose|i: int| 0 <= i < anc.len() && #[trigger] anc[i] == r1 && is_repo_root(r1) && (forall|j: int| 0 <= j < i ==> !is_repo_root(#[trigger] anc[j]));
+    let i2 = choose|i: int| 0 <= i < anc.len() && #[trigger] anc[i] == r2 && is_repo_root(r2) && (forall|j: int| 0 <= j < i ==> !is_repo_root(#[trigger] anc[j]));
+    if i1 < i2 { assert(!is_repo_root(anc[i1])); }
+    if i2 < i1 { assert(!is_repo_root(anc[i2])); }
+}
+
+/// (proved) whoever establishes the relation has computed `repo_root_spec`
+pub broadcast proof fn lemma_nearest_root_is_spec(start: PathBuf, root: PathBuf)
+    requires #[trigger] nearest_repo_root(start, root),
+    ensures repo_root_spec(start) == Some(root),
+{
+    let anc = ancestors_spec(start);
+    let i = choose|i: int| 0 <= i < anc.len() && #[trigger] anc[i] == root && is_repo_root(root) && (forall|j: int| 0 <= j < i ==> !is_repo_root(#[trigger] anc[j]));
+    assert(is_repo_root(anc[i]));
+    assert(!no_repo_root(start));
+    let c = choose|c: PathBuf| nearest_repo_root(start, c);
+    lemma_nearest_root_unique(start, root, c);
+}
+
+/// started in the root itself: the root is the start path (`ancestors` begins with the path itself)
+pub proof fn lemma_start_path_counts(start: PathBuf)
+    requires is_repo_root(start),
+    ensures nearest_repo_root(start, start), // [M2.lemma.start_path_itself_counts]
+{
+    axiom_ancestors_start_with_self(start);
+    assert(ancestors_spec(start)[0] == start);
+}
+
+pub broadcast group group_mainw_paths {
+    lemma_nearest_root_is_spec,
+}
+
+    } // verus!
+}
+use mainw_paths::*;
